@@ -754,7 +754,9 @@ func (st *state) applyDefaults(instancep reflect.Value, schema *Schema) (err err
 					if err := st.applyDefaults(lvalue, subschema); err != nil {
 						return err
 					}
-					instance.SetMapIndex(mapKey(instance, prop), lvalue.Elem())
+					if err := setDefault(instance, mapKey(instance, prop), lvalue.Elem()); err != nil {
+						return err
+					}
 				} else if val.IsValid() {
 					// Recurse into an existing sub-instance.
 					// MapIndex returns a non-addressable value; copy into an addressable lvalue, recurse, then set back.
@@ -792,7 +794,9 @@ func (st *state) applyDefaults(instancep reflect.Value, schema *Schema) (err err
 							filled = filled.Elem()
 						}
 						if filled.Kind() != reflect.Map || filled.Len() > 0 {
-							instance.SetMapIndex(mapKey(instance, prop), lvalue.Elem())
+							if err := setDefault(instance, mapKey(instance, prop), lvalue.Elem()); err != nil {
+								return err
+							}
 						}
 					}
 				}
@@ -804,6 +808,20 @@ func (st *state) applyDefaults(instancep reflect.Value, schema *Schema) (err err
 			}
 		}
 	}
+	return nil
+}
+
+// setDefault stores v under key in the map m. A nil map is allocated first if m
+// is settable (the caller passed a pointer to it); otherwise there is no place
+// to put the default.
+func setDefault(m, key, v reflect.Value) error {
+	if m.IsNil() {
+		if !m.CanSet() {
+			return errors.New("cannot apply defaults to a nil map")
+		}
+		m.Set(reflect.MakeMap(m.Type()))
+	}
+	m.SetMapIndex(key, v)
 	return nil
 }
 
